@@ -113,10 +113,10 @@ func c20Rules(t2 int) (Rules, error) {
 
 type c20Stats struct {
 	executed, steps, flips, unbans, casesWithBan, casesWithUnban, drift, dumpDrift int
-	determined                                                                       int
-	driftSample                                                                      []string
-	viols                                                                            map[string][]*c20Viol
-	counts                                                                           map[string]int
+	determined                                                                     int
+	driftSample                                                                    []string
+	viols                                                                          map[string][]*c20Viol
+	counts                                                                         map[string]int
 }
 
 func (st *c20Stats) add(v *c20Viol) {
